@@ -1,7 +1,7 @@
 (* C15 — Ping waits for its own Pong; received Pings are answered with the same payload.
-   Statements only; proofs in Proofs/ReaderP.v (read side) and Proofs/PingP.v (matching, when present). *)
+   Statements only; proofs in Proofs/ReaderP.v, Proofs/ReaderRefP.v (read side) and Proofs/PingP.v (matching). *)
 From Coq Require Import List NArith ZArith Bool.
-From WS Require Import Base.Words Gen.Consts Model.Mask Model.Frame Model.Proto Model.RefDecoder Model.Reader Model.Script Proofs.ReaderP Proofs.ReaderRefP.
+From WS Require Import Base.Words Gen.Consts Model.Mask Model.Frame Model.Proto Model.RefDecoder Model.Reader Model.Script Model.Ping Proofs.ReaderP Proofs.ReaderRefP Proofs.PingP.
 Import ListNotations.
 Open Scope N_scope.
 
@@ -29,6 +29,40 @@ Theorem C15_pong_harmless : forall s h raw rest, r_closed s = false -> h_opc h =
   exists s', handle_control s h = Ok tt s' /\ r_replies s' = r_replies s /\ r_inq s' = rest /\ r_closed s' = false /\ r_close_sent s' = r_close_sent s.
 Proof. exact pong_ignored. Qed.
 Print Assumptions C15_pong_harmless.
+
+(* ---- caller side: Ping waits for its OWN Pong (Model/Ping.v: registrations, handled Pongs, context ends, close) ---- *)
+
+(* for EVERY history: a Ping call returned nil only because a Pong carrying exactly its payload was handled after it registered
+   and before its context ended or the connection closed *)
+Theorem C15_ok_own_pong : forall evs i, In (i, PgOk) (pg_done (pg_run evs)) ->
+  exists a p b c, evs = a ++ PgReg i p :: b ++ PgPong p :: c /\ quiet_for i p b.
+Proof. exact ping_ok_own_pong. Qed.
+Print Assumptions C15_ok_own_pong.
+
+(* concurrent pings are each matched to their own Pong: a Pong with payload q leaves every call waiting on another payload
+   waiting, and completes nobody else *)
+Theorem C15_own_pong_only : forall s q i p, In (i, p) (pg_active s) -> p <> q ->
+  In (i, p) (pg_active (pg_step s (PgPong q))) /\ forall r, In (i, r) (pg_done (pg_step s (PgPong q))) -> In (i, r) (pg_done s) \/ exists p', In (i, p') (pg_active s) /\ p' = q.
+Proof. exact pong_touches_only_own. Qed.
+Print Assumptions C15_own_pong_only.
+
+(* unsolicited, unmatched and duplicate Pongs are ignored *)
+Theorem C15_unmatched_pong_ignored : forall s q, (forall i p, In (i, p) (pg_active s) -> p <> q) -> pg_step s (PgPong q) = s.
+Proof. exact pong_unmatched_ignored. Qed.
+Print Assumptions C15_unmatched_pong_ignored.
+
+(* the own Pong completes the call with nil; otherwise the end of its context or the close of the connection fails it *)
+Theorem C15_completion : forall s i p, In (i, p) (pg_active s) ->
+  In (i, PgOk) (pg_done (pg_step s (PgPong p))) /\ In (i, PgErr) (pg_done (pg_step s (PgEnd i))) /\ In (i, PgErr) (pg_done (pg_step s PgClosed)).
+Proof. intros s i p H. split; [exact (proj1 (own_pong_completes s i p H)) | exact (end_or_close_fails s i p H)]. Qed.
+Print Assumptions C15_completion.
+
+(* non-vacuity: two concurrent pings "1" and "2"; the Pongs come back in reverse order, preceded by the near miss "01" and an
+   unsolicited one; a third ping is never answered *)
+Example C15_matching :
+  pg_done (pg_run [PgReg 0%nat [49]; PgReg 1%nat [50]; PgReg 2%nat [51]; PgPong [48; 49]; PgPong [122]; PgPong [50]; PgPong [49]; PgPong [49]; PgEnd 2%nat])
+  = [(2, PgErr); (0, PgOk); (1, PgOk)]%nat.
+Proof. vm_compute. reflexivity. Qed.
 
 (* non-vacuity: two pings, one between and one inside a fragmented message, are answered in order *)
 Example C15_two_pings :
